@@ -1,35 +1,43 @@
 #!/bin/bash
-# For every "fix:" commit in /repo: apply its reverse to the working tree, run the
-# named checks (quick), record whether they report a VIOLATION, and restore the tree.
-# usage: tools/reverse_fix_matrix.sh  > detection/reverse_fixes.txt
+# For every "fix:" commit in /repo: undo it on a PRIVATE copy of the repository (scratch git
+# worktree under /tmp), run the named checks (quick) and record whether they report a
+# VIOLATION. /repo itself is not touched.  usage: tools/reverse_fix_matrix.sh > detection/reverse_fixes.txt
 cd "$(dirname "$0")/.."
-export VERIF_OUT_DIR=$(pwd)/.work/detect-out
-mkdir -p "$VERIF_OUT_DIR"
-run() { # <label> <checks...> -- <commits to reverse, newest first>
+VERIF=$(pwd)
+run() { # <label> <checks...> -- <commit[:path]...> (newest first)
   label=$1; shift
   checks=()
   while [ "$1" != "--" ]; do checks+=("$1"); shift; done
   shift
+  wt=/tmp/revfix-$$-$RANDOM
+  git -C /repo worktree add -q --detach "$wt" HEAD || return
   ok=1
   for c in "$@"; do
-    git -C /repo show "$c" | git -C /repo apply -R 2>/dev/null || { ok=0; break; }
+    commit=${c%%:*}; path=""
+    [ "$c" != "$commit" ] && path=${c#*:}
+    git -C /repo show "$commit" -- $path | git -C "$wt" apply -R 2>/dev/null || { ok=0; break; }
   done
-  if [ $ok = 0 ]; then echo "$label: reverse patch does not apply"; git -C /repo checkout -- .; return; fi
-  for chk in "${checks[@]}"; do
-    out=$(VMC_NO_CONFIRM=1 ./check "$chk" quick 2>&1)
-    rc=$?
-    n=$(echo "$out" | grep -c '^VIOLATION')
-    first=$(echo "$out" | grep -A1 '^VIOLATION' | grep oracle | head -1 | cut -c1-220)
-    echo "$label: $chk exit=$rc violations=$n $first"
-  done
-  git -C /repo checkout -- .
-  git -C /repo clean -fdq
+  if [ $ok = 1 ]; then
+    export VERIF_REPO=$wt VERIF_WORK=$VERIF/.work/revfix-$$ VERIF_OUT_DIR=$VERIF/.work/revfix-$$/out
+    mkdir -p "$VERIF_OUT_DIR"
+    for chk in "${checks[@]}"; do
+      s=$(date +%s)
+      out=$(VMC_NO_CONFIRM=1 ./check "$chk" quick 2>&1); rc=$?
+      n=$(echo "$out" | grep -c '^VIOLATION')
+      first=$(echo "$out" | grep -A1 '^VIOLATION' | grep oracle | head -1 | cut -c1-200)
+      echo "$label: $chk exit=$rc violations=$n $(( $(date +%s) - s ))s $first"
+    done
+    rm -rf "$VERIF_WORK"
+  else
+    echo "$label: reverse patch does not apply"
+  fi
+  git -C /repo worktree remove --force "$wt" >/dev/null 2>&1
 }
-run "012c24f patch clone in mergeDocs/mergeListMatch (D1)" C01 C02 -- 012c24f
-run "6d95b86 Process on a copy (D9)" C19 C10 -- 6d95b86
-run "5e321e7+7d299c4+be2b4cf reference copies, cycle detection, host restore (D1b/D7)" C10 C08 C09 -- be2b4cf 7d299c4 5e321e7
+run "012c24f patch clone in mergeDocs/mergeListMatch (D1)" C01 C02 -- 012c24f:merge.go
+run "6d95b86 Process on a copy (D9)" C19 -- 6d95b86
+run "5e321e7+7d299c4+be2b4cf reference copies, cycle detection, host restore (D1b)" C10 C09 C08 -- be2b4cf 7d299c4 5e321e7:process1.go
 run "be2b4cf host restore" C10 -- be2b4cf
-run "be2b4cf+7d299c4 cycle detection" C08 C10 -- be2b4cf 7d299c4
+run "be2b4cf+7d299c4 cycle detection" C08 -- be2b4cf 7d299c4
 run "3b73fba finalizeMap sorted (D10)" C09 -- 3b73fba
 run "3fd9965 key assertions (D4)" C08 -- 3fd9965
 run "7b038d5 interpolation depth guard (D5)" C08 -- 7b038d5
@@ -40,5 +48,5 @@ run "2b7aed6 number normalisation (D3)" C04 C05 -- 2b7aed6
 run "48b586a bkli multiset (D12)" C16 -- 48b586a
 run "ca6b8bb decode normalize (D13)" C14 -- ca6b8bb
 run "dfa9e75 toml nil doc" C15 -- dfa9e75
-run "0ca17d9 bkld fallback (D11)" C15 C16 -- 0ca17d9
+run "0ca17d9 bkld fallback (D11)" C15 -- 0ca17d9
 run "aadbaa0 yaml << quoting" C05 -- aadbaa0
